@@ -1,4 +1,5 @@
 """Define public decorators."""
+import functools
 import inspect
 import reprlib
 import traceback
@@ -445,7 +446,25 @@ class invariant:  # pylint: disable=invalid-name
                 frame.filename, frame.lineno, frame.name
             )
 
-        if inspect.iscoroutinefunction(condition):
+        # A call of a coroutine function, of an asynchronous generator function or of a generator-based coroutine
+        # function (``@types.coroutine``) gives an object which is always truthy; such an invariant could never fail.
+        unwrapped_condition = condition
+        while isinstance(unwrapped_condition, functools.partial):
+            unwrapped_condition = unwrapped_condition.func
+
+        if (
+            inspect.iscoroutinefunction(condition)
+            or inspect.isasyncgenfunction(unwrapped_condition)
+            or (
+                inspect.isgeneratorfunction(unwrapped_condition)
+                and bool(
+                    getattr(
+                        getattr(unwrapped_condition, "__code__", None), "co_flags", 0
+                    )
+                    & inspect.CO_ITERABLE_COROUTINE
+                )
+            )
+        ):
             raise ValueError(
                 "Async conditions are not possible in invariants as sync methods such as __init__ have to be wrapped."
             )
